@@ -22,12 +22,18 @@ Scn == [producer : {"idp"}, signResp : BOOLEAN, signAssert : BOOLEAN, advice : B
         pefim : BOOLEAN, keys : Keys, inner : {"none"}, wantAssert : BOOLEAN, companion : {FALSE}, spKey : {"labelled", "unlabelled"},
         \* priorVerify: the same IdP object has just verified a signed AuthnRequest of that SP (looked its *signing*
         \* certificate up); the assertion is encrypted under the encryption certificate all the same
-        priorVerify : BOOLEAN]
+        priorVerify : BOOLEAN,
+        \* via: the build options are handed to create_authn_response as arguments, or stand in the IdP's configuration
+        \* (sign_response, sign_assertion, encrypt_assertion, encrypted_advice_attributes, encrypt_assertion_self_contained)
+        \* and the call names none of them -- the same options either way
+        via : {"argument", "config"}]
        \cup [producer : {"attacker"}, signResp : {FALSE}, signAssert : {TRUE}, advice : {FALSE}, selfContained : {TRUE},
-             pefim : {FALSE}, keys : Keys, inner : Inner, wantAssert : BOOLEAN, companion : BOOLEAN, spKey : {"labelled"}, priorVerify : {FALSE}]
+             pefim : {FALSE}, keys : Keys, inner : Inner, wantAssert : BOOLEAN, companion : BOOLEAN, spKey : {"labelled"}, priorVerify : {FALSE},
+             via : {"argument"}]
 
 \* the prior verification is combined with the plain build options only
-WellFormed(s) == s.priorVerify => ~s.advice /\ ~s.pefim /\ s.selfContained /\ s.keys = "matchFirst" /\ s.spKey = "labelled"
+WellFormed(s) == /\ s.priorVerify => ~s.advice /\ ~s.pefim /\ s.selfContained /\ s.keys = "matchFirst" /\ s.spKey = "labelled" /\ s.via = "argument"
+                 /\ s.via = "config" => s.keys = "matchFirst" /\ s.spKey = "labelled" /\ ~s.wantAssert
 VARIABLES scn, pc, plain, sigChecked, verdict
 vars == <<scn, pc, plain, sigChecked, verdict>>
 Init == scn \in {s \in Scn : WellFormed(s)} /\ pc = "round1" /\ plain = FALSE /\ sigChecked = FALSE /\ verdict = "none"
